@@ -269,7 +269,7 @@ func galaxyEntryPoints(seed int64) ([]*ep, func(), error) {
 	for i := 0; i < 8; i++ {
 		p := &corev1.Pod{ObjectMeta: metav1.ObjectMeta{Name: fmt.Sprintf("p%d", i), Namespace: "ns1", UID: types.UID(fmt.Sprintf("gp%d", i)),
 			Labels: map[string]string{"app": []string{"web", "db"}[i%2]}},
-			Spec: corev1.PodSpec{NodeName: host, Containers: []corev1.Container{{Name: "c"}}},
+			Spec:   corev1.PodSpec{NodeName: host, Containers: []corev1.Container{{Name: "c"}}},
 			Status: corev1.PodStatus{PodIP: fmt.Sprintf("10.22.0.%d", 10+i)}}
 		switch i % 4 {
 		case 1:
